@@ -3,7 +3,6 @@
 package oracle
 
 import (
-	"verif/sim/zones"
 	"bytes"
 	"encoding/json"
 	"fmt"
@@ -11,6 +10,7 @@ import (
 	"sort"
 	"strings"
 	"time"
+	"verif/sim/zones"
 
 	"verif/sim/engine"
 	"verif/sim/gen"
